@@ -10,8 +10,7 @@ Ltac qunf :=
   cbv zeta in *; cbn [st arr cnt head tail] in *.
 
 Section Inv.
-Variables (owning : bool) (jk : Z) (sq : nat).
-Hypothesis sq_pos : 0 < sq.
+Variables (owning : bool) (sq : nat).
 
 (* storage kind vs. array length: _queue==NULL has no slots, the inline array has exactly
    ARRAYITEMS(_smallQueue) slots, a heap array is never shorter than the inline one *)
@@ -24,15 +23,16 @@ Definition clean (q : q1) : Prop :=
   owning = true -> forall i, cnt q <= i < qsize q -> getu q i = dflt.
 
 Record inv (q : q1) : Prop := mkInv {
+  inv_sq : 0 < sq;     (* ARRAYITEMS(_smallQueue) >= 1 *)
   inv_cnt : cnt q <= qsize q;
   inv_head : 0 < qsize q -> head q < qsize q;
   inv_tail : 0 < cnt q -> tail q = intern q (cnt q - 1);
   inv_store : store_ok q;
   inv_clean : clean q }.
 
-Lemma inv_empty : inv empty_q.
+Lemma inv_empty : 0 < sq -> inv empty_q.
 Proof.
-  constructor; try (cbn; lia).
+  intros Hsq. constructor; try (cbn; lia).
   intros _ i Hi. cbn in Hi. lia.
 Qed.
 
@@ -61,7 +61,8 @@ Lemma inv_same_shape q q' :
   inv q -> st q' = st q -> qsize q' = qsize q -> cnt q' = cnt q -> head q' = head q ->
   tail q' = tail q -> (forall i, cnt q <= i < qsize q -> getu q' i = getu q i) -> inv q'.
 Proof.
-  intros [I1 I2 I3 I4 I5] Hs Hq Hc Hh Ht Hg. constructor.
+  intros [I0 I1 I2 I3 I4 I5] Hs Hq Hc Hh Ht Hg. constructor.
+  - exact I0.
   - lia.
   - rewrite Hq, Hh. exact I2.
   - rewrite Hc, Ht. intros H. rewrite (intern_congr q q') by assumption. auto.
@@ -137,6 +138,7 @@ Proof.
   intros I Hc. destruct (remove_head_shape q I Hc) as (Hs & Hq & Hn & Hh & Ht & Hg).
   pose proof (inv_cnt q I). pose proof (inv_hd q I Hc) as Hd. pose proof (inv_tail q I Hc) as Htl.
   constructor.
+  - exact (inv_sq q I).
   - lia.
   - rewrite Hq, Hh. intros _. apply next_lt. lia.
   - rewrite Hn, Ht, Htl. intros Hc'. qunf. rewrite Hq, Hh. qunf. dif; fin.
@@ -160,6 +162,7 @@ Proof.
   intros I Hc. destruct (remove_tail_shape q I Hc) as (Hs & Hq & Hn & Hh & Ht & Hg).
   pose proof (inv_cnt q I). pose proof (inv_hd q I Hc) as Hd. pose proof (inv_tail q I Hc) as Htl.
   constructor.
+  - exact (inv_sq q I).
   - lia.
   - rewrite Hq, Hh. exact (inv_head q I).
   - rewrite Hn, Ht, Htl. intros Hc'. rewrite prev_intern by lia.
